@@ -85,7 +85,7 @@ class DummyXDP:
         pass
 
 
-def run_schedule(prefix, npart, rseed, restart=()):
+def run_schedule(prefix, npart, rseed, restart=(), hostile=False):
     """returns (trace, status, events); participants in `restart` run their
     ParallelEtherCat object a second time after they left (a restart of the
     loop in the same process)"""
@@ -114,6 +114,10 @@ def run_schedule(prefix, npart, rseed, restart=()):
     # marked: the narrowed universe must have room for every run)
     lockmod.randrange = lambda a, b=None: rng.randint(1, 3 + 2 * len(restart))
     ecmod.randrange = lambda a, b=None: 0x3000 + rng.randint(0, 2)
+    if hostile:
+        lockmod.randrange = hostile_draws(
+            sched, "running-begin", "running-end",
+            [2, 3, 9, 4, 5, 10, 6, 7, 11] + list(range(12, 500)))
 
     def participant(pid):
         sched.pids[threading.get_ident()] = pid
@@ -165,7 +169,39 @@ def run_schedule(prefix, npart, rseed, restart=()):
     return trace, status, sched.events
 
 
-def run_fmmu_schedule(prefix, npart, rseed, rounds=2):
+def hostile_draws(sched, begin, end, fresh):
+    """a random source that is out to collide: every draw of a participant
+    first names the address ranges other participants hold right now (each
+    once per allocation), then values nobody has used.  Any sequence is a
+    possible outcome of randrange(1, 512); a correct address map refuses the
+    held ones whatever the schedule."""
+    tried = {}
+    fresh = iter(fresh)
+
+    def draw(a, b=None):
+        me = sched.me()
+        live = {}
+        mine = 0
+        for _, p, op, d in sched.events:
+            if op == begin:
+                base = d["base"] if isinstance(d, dict) else d
+                if p == me:
+                    mine += 1
+                else:
+                    live[p] = base >> 22
+            elif op == end and p != me:
+                live.pop(p, None)
+        t = tried.setdefault((me, mine), set())
+        for addr in sorted(live.values()):
+            if addr not in t:
+                t.add(addr)
+                return addr
+        return next(fresh)
+    return draw
+
+
+def run_fmmu_schedule(prefix, npart, rseed, rounds=2, hostile=False,
+                      director=None):
     """participants create / use / remove FMMULocks on one address map; the
     random draws come from a small set that spans several bitmap bytes"""
     import os
@@ -175,6 +211,8 @@ def run_fmmu_schedule(prefix, npart, rseed, rounds=2):
     universe = [1, 2, 9, 10, 17, 3]
 
     def schedule_fn(trace, enabled):
+        if director is not None:
+            return director(sched, trace, enabled)
         i = len(trace)
         if i < len(prefix) and prefix[i] in enabled:
             return prefix[i]
@@ -186,6 +224,11 @@ def run_fmmu_schedule(prefix, npart, rseed, rounds=2):
     old = (lockmod.os, lockmod.fcntl, lockmod.randrange)
     lockmod.os, lockmod.fcntl = prox.lock_os, prox.fcntl
     lockmod.randrange = lambda a, b=None: rng.choice(universe)
+    if hostile:
+        # fresh values: the creator's byte first, then the next byte
+        lockmod.randrange = hostile_draws(
+            sched, "alloc", "release",
+            [2, 3, 9, 4, 5, 10, 6, 7, 11] + list(range(12, 500)))
 
     def participant(pid):
         sched.pids[threading.get_ident()] = pid
@@ -219,6 +262,65 @@ def run_fmmu_schedule(prefix, npart, rseed, rounds=2):
         lockmod.os, lockmod.fcntl, lockmod.randrange = old
         shutil.rmtree(root, ignore_errors=True)
     return trace, status, sched.events
+
+
+def segments(spec):
+    """a director for run_fmmu_schedule: spec is a list of (pid, stop); the
+    participant runs until it has made `stop` choices in this segment (int),
+    until the gate it waits at is `stop` (tuple), or until it is done (None).
+    A participant that is blocked lets the others run meanwhile."""
+    state = dict(seg=0, n=0)
+
+    def director(sched, trace, enabled):
+        while state["seg"] < len(spec):
+            pid, stop = spec[state["seg"]]
+            over = pid not in sched.waiting
+            if not over and isinstance(stop, int):
+                over = state["n"] >= stop
+            elif not over and stop is not None:
+                over = sched.waiting[pid][0] == stop
+            if over:
+                state["seg"] += 1
+                state["n"] = 0
+                continue
+            if pid in enabled:
+                state["n"] += 1
+                return pid
+            break
+        if trace and trace[-1][0] in enabled:
+            return trace[-1][0]
+        return enabled[0]
+    return director
+
+
+def inside_leg(res, sigs, shard, of):
+    """one operation run inside another: at every gate of a participant's
+    first round and second allocation, another participant allocates (and
+    parks), runs a whole round, or runs a round and allocates again; a third
+    one may allocate right after.  The draws are hostile (hostile_draws)."""
+    seen = set()
+    for g in range(1, 48):
+        if g % of != shard:
+            continue
+        specs = []
+        for u in (("hold", 0), ("start", 1), ("hold", 1)):
+            specs.append((2, [(0, g), (1, u), (0, None), (1, None)]))
+            specs.append((3, [(0, g), (1, u), (2, ("hold", 0)), (0, None),
+                              (1, None), (2, None)]))
+        for u in (("start", 1), ("hold", 1)):
+            specs.append((2, [(1, ("hold", 0)), (0, g), (1, u), (0, None),
+                              (1, None)]))
+            specs.append((3, [(1, ("hold", 0)), (2, ("hold", 0)), (0, g),
+                              (1, u), (0, None), (2, None), (1, None)]))
+        for n, spec in specs:
+            trace, status, events = run_fmmu_schedule(
+                (), n, 0, hostile=True, director=segments(spec))
+            choices = tuple(c for c, _ in trace)
+            if (n, choices) in seen:
+                continue
+            seen.add((n, choices))
+            analyse_fmmu(choices, trace, status, events, n, res, sigs,
+                         "fmmu_inside")
 
 
 def judge_fmmu(events):
@@ -409,9 +511,12 @@ def run_shard(params):
     for j in range(params["rnd"]):
         r = random.Random(rng.getrandbits(32))
         pre = tuple(r.randrange(3) for _ in range(120))
-        trace, status, events = run_schedule(pre, 3, r.getrandbits(16))
+        trace, status, events = run_schedule(pre, 3, r.getrandbits(16),
+                                             hostile=j % 2 == 1)
         analyse(tuple(c for c, _ in trace), trace, status, events, 3, res,
                 sigs, "random3")
+        if j % 2:
+            res.count("schedules_with_hostile_draws")
     # a participant that restarts its loop object, seeded random schedules
     for j in range(params["rnd"] * 2):
         r = random.Random(rng.getrandbits(32))
@@ -466,6 +571,7 @@ def run_shard(params):
         trace, status, events = run_fmmu_schedule(pre, n, r.getrandbits(16))
         analyse_fmmu(tuple(c for c, _ in trace), trace, status, events, n,
                      res, sigs, "fmmu_random")
+    inside_leg(res, sigs, params["shard"], params["of"])
     windows_leg(res, rng, 6 if params["rnd"] <= 10 else 40)
     if params["shard"] in (0, 1):
         netlink_leg(res, rng, 12 if params["rnd"] <= 10 else 60)
@@ -775,7 +881,8 @@ def finalize(res, tier, seed):
     if not c.get("schedules_random3"):
         res.inconc("no 3-participant schedule ran")
     if not c.get("schedules_fmmu_enumerated") or \
-            not c.get("schedules_fmmu_random"):
+            not c.get("schedules_fmmu_random") or \
+            not c.get("schedules_fmmu_inside"):
         res.inconc("FMMU address-map leg did not run")
 
 
@@ -786,6 +893,13 @@ def replay(v):
         bad = windows_history(c, res)
         if bad:
             res.violation(bad[0], bad[1], case=c)
+        return res
+    if c["kind"] == "fmmu_inside":
+        # the hostile draws are a function of the schedule
+        trace, status, events = run_fmmu_schedule(
+            tuple(c["schedule"]), c["participants"], 0, hostile=True)
+        analyse_fmmu(tuple(x for x, _ in trace), trace, status, events,
+                     c["participants"], res, set(), c["kind"])
         return res
     if c["kind"].startswith("fmmu"):
         return res      # random draws are not stored in the case
